@@ -550,7 +550,6 @@ func (x *fx) ptrField() {
 	g := f.GoName()
 	slot := int(f.Offset)
 	wantType := sgen.GoTypeName(f.Type)
-	hasDef := f.Def.Explicit
 	for bg := 0; bg <= 1; bg++ {
 		// --- setter, then Has and getter
 		o0, _, ok := x.obj(bg)
@@ -733,8 +732,6 @@ func (x *fx) ptrField() {
 			}
 		}
 	}
-	_ = hasDef
-	_ = wantType
 }
 
 // checkGetter compares X() (and XBytes for text) with the value v that the
